@@ -88,6 +88,48 @@ CodecViol(e, exp) ==
                     \cup (IF ~m.fd_first THEN {"C01/backend/descriptors-not-with-first-byte/" \o tag} ELSE {})
                ELSE {})
 
+\* C05: hostile input.  The handler is invoked only with arguments that satisfy the protocol's
+\* validity rules and with exactly the prescribed descriptors; a request that breaks one of the
+\* listed rules is rejected with an error; nothing panics.
+V == INSTANCE Validators
+Lo2(x) == SubSeq(x, 1, 2)
+RegionOK(r) == V!Region([gpa |-> r.gpa, size |-> r.size, ua |-> r.ua, off |-> r.off]) # "no"
+CallArgsViol(c) ==
+    CASE c.op = "set_mem_table" ->
+            (IF Len(c.regions) \notin 1..32 THEN {"region-count"} ELSE {})
+            \cup (IF c.nfiles # Len(c.regions) THEN {"files-per-region"} ELSE {})
+            \cup (IF \E i \in 1..Len(c.regions) : ~RegionOK(c.regions[i]) THEN {"region"} ELSE {})
+      [] c.op = "add_mem_region" -> (IF ~RegionOK(c.regions[1]) THEN {"region"} ELSE {}) \cup (IF c.nfiles # 1 THEN {"files"} ELSE {})
+      [] c.op = "remove_mem_region" -> IF ~RegionOK(c.regions[1]) THEN {"region"} ELSE {}
+      [] c.op = "set_vring_addr" ->
+            IF V!VringAddr([flags |-> <<c.flags, 0>>, desc |-> c.desc, avail |-> c.avail, used |-> c.used]) = "no" THEN {"ring-address"} ELSE {}
+      [] c.op \in {"get_config", "set_config"} ->
+            IF c.offset[3] # 0 \/ c.offset[4] # 0 \/ c.size[3] # 0 \/ c.size[4] # 0
+               \/ V!Config([offset |-> Lo2(c.offset), size |-> Lo2(c.size), flags |-> <<c.flags, 0>>]) = "no"
+            THEN {"config-window"} ELSE {}
+      [] OTHER -> {}
+Prescribed(e) ==
+    CASE e.c = SET_MEM_TABLE -> IF "n" \in DOMAIN e.args THEN e.args.n ELSE 1
+      [] e.c \in {SET_VRING_KICK, SET_VRING_CALL, SET_VRING_ERR} -> IF "nofd" \in DOMAIN e.args /\ e.args.nofd THEN 0 ELSE 1
+      [] e.c \in {SET_LOG_BASE, SET_BACKEND_REQ_FD, SET_INFLIGHT_FD, ADD_MEM_REG, SET_DEVICE_STATE_FD, GPU_SET_SOCKET} -> 1
+      [] OTHER -> 0
+ListedBodyRule(e) ==
+    \/ e.c = SET_MEM_TABLE /\ e.var \in {"body.nregions0", "body.nregions33", "body.size0", "body.gpa_wrap", "body.ua_wrap", "body.off_wrap",
+                                         "body.size_max", "body.len_short", "body.len_long"}
+    \/ e.c \in {ADD_MEM_REG, REM_MEM_REG} /\ e.var \in {"body.size0", "body.gpa_wrap", "body.ua_wrap", "body.off_wrap", "body.size_max"}
+    \/ e.c = SET_VRING_ADDR /\ e.var \in {"body.flags_undef", "body.desc_unaligned", "body.used_unaligned", "body.avail_unaligned"}
+    \/ e.c \in {GET_CONFIG, SET_CONFIG} /\ e.var \in {"body.size0", "body.end_gt", "body.wrap", "body.flags_undef", "body.payload_short", "body.payload_long"}
+    \/ e.c = SET_VRING_ENABLE /\ e.var = "body.num2"
+    \/ e.c \in {SET_VRING_KICK, SET_VRING_CALL, SET_VRING_ERR} /\ e.var \in {"body.nofdbit_with_fd", "body.fdbit_without_fd"}
+HostileViol(e) ==
+    LET tag == "c=" \o Str(e.c) \o "/" \o e.var IN
+    (IF e.res = "panic" THEN {"C05/panic/" \o tag} ELSE {})
+    \cup (IF e.ncalls > 0 THEN {"C05/handler-invoked-with-invalid-arguments/c=" \o Str(e.c) \o "/" \o r : r \in CallArgsViol(e.calls[1])} ELSE {})
+    \cup (IF e.ncalls > 0 /\ e.c \in FeServed /\ e.nfds # Prescribed(e)
+          THEN {"C05/dispatched-with-wrong-descriptor-count/c=" \o Str(e.c) \o "/sent=" \o (IF e.nfds > 2 THEN "many" ELSE Str(e.nfds))} ELSE {})
+    \cup (IF ListedBodyRule(e) /\ (e.ncalls > 0 \/ e.res = "ok") THEN {"C05/invalid-request-accepted/" \o tag} ELSE {})
+    \cup (IF e.res \notin {"ok", "panic"} /\ ~e.res_ok /\ e.hang THEN {"C05/hang/" \o tag} ELSE {})
+
 \* C07: the server always offers REPLY_ACK (bit 3), whatever the device offers
 OfferViol(e) ==
     IF e.c = GET_PROTOCOL_FEATURES /\ e.h = "ok" /\ e.nout = 1 /\ e.out[1].size = 8 /\ (e.out[1].val[1] \div 8) % 2 = 0
@@ -132,13 +174,14 @@ TVReq == /\ l <= Len(Rec) /\ Rec[l].ev = "req"
                     /\ judged' = judged + 1
                     /\ UNCHANGED s
                ELSE IF e.var \in {"valid", "fixed"}
-               THEN /\ viol' = AddViol(viol, IF e.seg = <<>> THEN dev
+               THEN /\ viol' = AddViol(viol, IF e.seg = <<>> THEN dev \cup HostileViol(e)
                                              ELSE IF dev = {} THEN {}
                                              ELSE {"C08/backend/segmented-request-mishandled/c=" \o Str(e.c) \o "/" \o e.res}, cur)
                     /\ s' = SrvNext(s, a, devPF)
                     /\ judged' = judged + 1
-               ELSE /\ viol' = AddViol(viol, CrashViol(e), cur)
-                    /\ UNCHANGED <<s, judged>>
+               ELSE /\ viol' = AddViol(viol, HostileViol(e), cur)
+                    /\ judged' = judged + 1
+                    /\ UNCHANGED s
          /\ l' = l + 1
          /\ UNCHANGED <<devPF, cur>>
 
